@@ -337,6 +337,8 @@ pub fn run_mode(opts: &Options, prop: &str) -> Report {
             ("C03", true) => 600,
             ("C08", false) => 30,
             ("C08", true) => 150,
+            ("C09", false) => 60,
+            ("C09", true) => 1200,
             (_, false) => 80,
             (_, true) => 1500,
         };
@@ -352,7 +354,7 @@ pub fn run_mode(opts: &Options, prop: &str) -> Report {
         super::seed_client_randomness(*seed);
         let sc = scenario(*seed, *len, prop == "C03");
         let branches = &sc.branches;
-        let replay = |extra: String| vec![format!("history-seed {} len {}", seed, len), format!("# {}; steps {:?}", sc.desc, sc.steps), extra];
+        let replay = |extra: String| vec![format!("history-seed {} len {}", seed, len), format!("# {}{}; steps {:?}", if prop == "C09" { "fork-history with set_scripts commands; " } else { "" }, sc.desc, sc.steps), extra];
         if hi % 17 == 0 {
             rep.sample(&format!("history-seed {} len {}: {}; steps {:?}", seed, len, sc.desc, sc.steps));
         }
@@ -403,6 +405,12 @@ pub fn run_mode(opts: &Options, prop: &str) -> Report {
         let mut serving = 0usize;
         let mut aborted: Option<String> = None;
         let mut rolled_back = false;
+        // C09: `set_scripts` commands that keep the three scripts (a fourth registration - script 1
+        // as a TYPE script, which nothing on these chains touches - is added from a far block with
+        // `partial` and removed again with `delete`) at arbitrary moments of the fork histories
+        let mut cmd_rng = Rng::new(*seed ^ 0x5e75_c0de);
+        let mut extra_registered = false;
+        let mut seen_switch = false;
         // the writes of the steps are counted (the first start and set_scripts have their own
         // crash enumeration in sync.rs)
         let sites: std::rc::Rc<std::cell::RefCell<Vec<&'static str>>> = Default::default();
@@ -426,6 +434,7 @@ pub fn run_mode(opts: &Options, prop: &str) -> Report {
                         peer_branch[p] = serving;
                     }
                     serving = *i;
+                    seen_switch = true;
                     rep.count_op("switch");
                     let chain = &branches[serving].chain;
                     // the first peer switches and announces at once, the others one per round
@@ -530,6 +539,25 @@ pub fn run_mode(opts: &Options, prop: &str) -> Report {
                                     impls.push(String::new());
                                     lines.push("dump".into());
                                     impls.push(show_obs(&after));
+                                }
+                                if prop == "C09" && cmd_rng.chance(if seen_switch { 1 } else { 0 }, 4) {
+                                    let (cmd, line, number) = if extra_registered {
+                                        (SetScriptsCommand::Delete, "set 2 | 11 0".to_string(), 0u64)
+                                    } else {
+                                        (SetScriptsCommand::Partial, "set 1 | 11 100000".to_string(), 100_000u64)
+                                    };
+                                    extra_registered = !extra_registered;
+                                    let statuses = vec![ScriptStatus { script: script_of(1).into(), script_type: ScriptType::Type, block_number: number.into() }];
+                                    let rpc = node.filter_rpc();
+                                    if let Err(e) = catch(|| rpc.set_scripts(statuses, Some(cmd)).expect("set_scripts")) {
+                                        aborted = Some(e);
+                                        break 'steps;
+                                    }
+                                    rep.count_op(if number == 0 { "set-delete-other" } else { "set-partial-other" });
+                                    lines.push(line);
+                                    impls.push(String::new());
+                                    lines.push("dump".into());
+                                    impls.push(show_obs(&observe_all(&node, branches, serving)));
                                 }
                             }
                         }
